@@ -2,6 +2,9 @@
    inside word-level proofs (DESIGN.md section 3).  Every stub is listed in the
    evidence through its VP-ASSUMED marker. */
 #include "vp_rg.h"
+#ifdef VP_WK_LOCKED
+#include "vp_amu.h"
+#endif
 
 /* VP-ASSUMED: nsync_panic_ does not return (a panic is a documented abort on API misuse) */
 void nsync_panic_ (const char *s) { (void) s; VP_ASSUME (0); }
@@ -16,7 +19,18 @@ void nsync_set_per_thread_waiter_ (void *v, void (*dest) (void *)) { (void) v; (
 /* VP-ASSUMED: nsync_mu_semaphore_p/v/p_with_deadline touch only the semaphore (arbitrary effect on the waiter's private state, none on any nsync word); this covers counting and binary semaphores */
 void nsync_mu_semaphore_init (nsync_semaphore *s) { (void) s; }
 void nsync_mu_semaphore_p (nsync_semaphore *s) { (void) s; vp_g.p_calls++; }
-void nsync_mu_semaphore_v (nsync_semaphore *s) { (void) s; vp_g.v_calls++; }
+void nsync_mu_semaphore_v (nsync_semaphore *s) {
+	(void) s;
+	vp_g.v_calls++;
+#ifdef VP_RG_WAKER
+	VP_ASSERT (vp_wk.pending, "C02/C04: a waker posts a waiter's semaphore only after clearing that waiter's waiting flag");
+#ifdef VP_WK_LOCKED
+	if (vp_wk.lock != NULL) VP_ASSERT (vp_amu_held (vp_wk.lock), "C13: the waker posts the waiter's semaphore while holding the lock that the waiter's dequeue takes");
+#endif
+	vp_wk.pending = 0;
+	vp_wk.posted++;
+#endif
+}
 int nsync_mu_semaphore_p_with_deadline (nsync_semaphore *s, nsync_time abs_deadline) {
 	(void) s; (void) abs_deadline;
 	vp_g.p_calls++;
@@ -26,7 +40,19 @@ int nsync_mu_semaphore_p_with_deadline (nsync_semaphore *s, nsync_time abs_deadl
 
 #ifdef VP_ABSTRACT_QUEUE
 /* VP-ASSUMED: abstract waiter queue inside word-level proofs: nsync_dll_* return NULL or some valid waiter record with arbitrary contents (a sound over-approximation for properties of the word; the exact behaviour of dll.c is proved under C17) */
-waiter vp_fw;   /* one record, re-havoced at every call: contents are always arbitrary */
+waiter vp_fw;   /* one record; its DATA fields are re-havoced at every call (contents always arbitrary); its links, container and
+                   semaphore pointers are set once by vp_fw_init () and never written again */
+void vp_fw_init (void) {
+	vp_fw.nw.q.container = &vp_fw.nw;
+	vp_fw.nw.q.next = &vp_fw.nw.q;
+	vp_fw.nw.q.prev = &vp_fw.nw.q;
+	vp_fw.nw.sem = &vp_fw.sem;
+	vp_fw.same_condition.container = &vp_fw;
+	vp_fw.same_condition.next = &vp_fw.same_condition;
+	vp_fw.same_condition.prev = &vp_fw.same_condition;
+	vp_fw.tag = WAITER_TAG;
+	vp_fw.nw.tag = NSYNC_WAITER_TAG;
+}
 static nsync_dll_element_ *some_record (void) {
 	waiter *w = &vp_fw;
 	w->nw.waiting = vp_nondet_u32 ();
@@ -34,11 +60,6 @@ static nsync_dll_element_ *some_record (void) {
 	w->remove_count = vp_nondet_u32 ();
 	w->cv_mu = NULL;
 	w->flags = vp_nondet_i32 ();
-	w->nw.q.container = &w->nw;
-	w->nw.sem = &w->sem;
-	w->same_condition.container = w;
-	w->same_condition.next = &w->same_condition;
-	w->same_condition.prev = &w->same_condition;
 	w->l_type = vp_nondet_bool () ? nsync_writer_type_ : nsync_reader_type_;
 	w->cond.f = NULL;
 	return &w->nw.q;
